@@ -31,6 +31,8 @@ def demo(wt, d, meta):
     dst = os.path.join(wt, pkgdir, "zz_seeded_demo_test.go")
     shutil.copyfile(os.path.join(d, "demo_test.go"), dst)
     race = "-race" if "-race" in meta.get("demo_cmd", "") else ""
+    if " -cover" in meta.get("demo_cmd", ""):
+        race += " -cover"
     rc, out = sh("go test -vet=off -count=1 %s -run '^(%s)$' ./%s/" % (race, "|".join(names), pkgdir), wt)
     os.remove(dst)
     return rc, out
